@@ -98,6 +98,24 @@ def mutate(rnd, raw):
             p, n = rnd.choice(enums)
             n["default"] = rnd.choice(["NOT_A_SYMBOL", "", (n["symbols"][0].lower() if n["symbols"] else "a") + "_x"])
             return kind, s
+        if kind == "default-type" and records and rnd.random() < 0.35:
+            # a new optional field ["null", <simple name of a type of the same namespace defined in an earlier field>] with a default that
+            # matches neither branch: the check has to resolve the simple name in the enclosing namespace
+            cands = []
+            for rp, rn in records:
+                fr = full_name_of(s, rp)
+                if not fr or "." not in fr:
+                    continue
+                for i, f_ in enumerate(rn.get("fields", [])):
+                    t_ = f_.get("type")
+                    if isinstance(t_, dict) and t_.get("type") in ("record", "error", "enum", "fixed"):
+                        fn = full_name_of(s, rp + ("fields", i, "type"))
+                        if fn and "." in fn and fn.rsplit(".", 1)[0] == fr.rsplit(".", 1)[0]:
+                            cands.append((rn, fn.rsplit(".", 1)[1]))
+            if cands:
+                rn, simple = rnd.choice(cands)
+                rn["fields"].append({"name": "zz_byname", "type": ["null", simple], "default": rnd.choice([5, True, [1], 2.5])})
+                return kind, s
         if kind == "default-type" and fields:
             p, f = rnd.choice(fields)
             # half of the time a field whose type is a union with a by-name branch (the check has to look the name up)
